@@ -250,7 +250,7 @@ func (w *Worker) intrinsic(s *State, f *Frame, name string, fn *ssa.Function, ar
 			}
 			s.threads = append(s.threads, &Thread{frames: []*Frame{nf}})
 			return adv(nil)
-		case "Join":
+		case "Join", "Settle":
 			return adv(nil)
 		case "LastClock":
 			var lc *Term
